@@ -1026,6 +1026,40 @@ async fn scenario(name: &str) -> Result<(), String> {
                 ));
             }
         }
+        "install_beyond_leftover_log_then_append" => {
+            // C08 / C02: a follower that was down holds an old log that ends BELOW the leader's snapshot (entries 1..=2, snapshot at 3, delete_through None:
+            // async-raft found no matching entry); after the installation replication goes on behind the snapshot: the append must be accepted,
+            // the entries returned, and a restart must find them again
+            let follower = boot(d2.path()).await;
+            let blank = |i: u64, t: u64| Entry::<ClientRequest> { term: t, index: i, payload: EntryPayload::Blank };
+            let old: Vec<Entry<ClientRequest>> = (1..=2).map(|i| blank(i, 1)).collect();
+            follower.store.replicate_to_log(&old).await.map_err(|e| format!("MODEL: replicate: {}", e))?;
+            let (id, mut file) = follower.store.create_snapshot().await.map_err(|e| format!("MODEL: create_snapshot: {}", e))?;
+            file.write_all(&bytes).await.unwrap();
+            file.flush().await.unwrap();
+            follower.store.finalize_snapshot_installation(s_index, s_term, None, id, file).await.map_err(|e| format!("finalize_snapshot_installation fails: {}", e))?;
+            tokio::time::sleep(Duration::from_millis(200)).await;
+            let fresh: Vec<Entry<ClientRequest>> = (s_index + 1..s_index + 3).map(|i| blank(i, s_term)).collect();
+            follower
+                .store
+                .replicate_to_log(&fresh)
+                .await
+                .map_err(|e| format!("a follower with an old log below the snapshot (entries 1..=2, snapshot installed at {}): the append behind the snapshot is refused: {}", s_index, e))?;
+            let got = follower.store.get_log_entries(s_index + 1, s_index + 3).await.map_err(|e| format!("query behind the installed snapshot fails: {}", e))?;
+            if got.len() != 2 {
+                return Err(format!("entries appended behind the installed snapshot: {} of 2 are returned", got.len()));
+            }
+            let stale = follower.store.get_log_entries(1, 3).await.map(|v| v.len()).unwrap_or(0);
+            if stale != 0 {
+                return Err(format!("the old log entries below the installed snapshot are still returned ({} entries)", stale));
+            }
+            let (_end, _applied) = stop_and_copy(&follower, d2.path(), d3.path()).await;
+            let restarted = boot(d3.path()).await;
+            let again = restarted.store.get_log_entries(s_index + 1, s_index + 3).await.map_err(|e| format!("query after the restart fails: {}", e))?;
+            if again.len() != 2 {
+                return Err(format!("after a restart {} of the 2 entries appended behind the installed snapshot are returned", again.len()));
+            }
+        }
         "install_then_serve" | "install_then_restart" => {
             let follower = boot(d2.path()).await;
             let (id, mut file) = follower.store.create_snapshot().await.map_err(|e| format!("MODEL: create_snapshot: {}", e))?;
